@@ -39,3 +39,103 @@ Definition nd_transpose {A} (d : A) (a : nd A) (axes : list nat) : nd A :=
 
 Definition is_perm (axes : list nat) (k : nat) : bool :=
   Nat.eqb (length axes) k && forallb (fun i => existsb (Nat.eqb i) axes) (seq 0 k).
+
+(** * Facts *)
+
+Lemma index_of_nth l : NoDup l -> forall i, i < length l -> index_of (nth i l 0) l = i.
+Proof.
+  induction 1 as [|x l Hx Hnd IH]; intros i Hi; simpl in *; [lia|].
+  destruct i as [|i].
+  - now rewrite Nat.eqb_refl.
+  - destruct (Nat.eqb_spec x (nth i l 0)) as [E|E].
+    + exfalso. apply Hx. rewrite E. apply nth_In. lia.
+    + f_equal. apply IH. lia.
+Qed.
+
+Lemma nth_index_of x l : In x l -> nth (index_of x l) l 0 = x /\ index_of x l < length l.
+Proof.
+  induction l as [|y l IH]; intros H; simpl in *; [tauto|].
+  destruct (Nat.eqb_spec y x) as [E|E]; [split; [exact E|lia]|].
+  destruct H as [H|H]; [congruence|]. destruct (IH H). split; [assumption|lia].
+Qed.
+
+Lemma index_of_notin x l : ~ In x l -> index_of x l = length l.
+Proof.
+  induction l as [|y l IH]; intros H; simpl in *; [reflexivity|].
+  destruct (Nat.eqb_spec y x) as [E|E]; [exfalso; apply H; now left|]. f_equal. apply IH. tauto.
+Qed.
+
+(** in-bounds multi-index *)
+Fixpoint inbounds (idx shape : list nat) : Prop :=
+  match idx, shape with
+  | [], [] => True
+  | i :: is_, s :: ss => i < s /\ inbounds is_ ss
+  | _, _ => False
+  end.
+
+Lemma inbounds_length idx shape : inbounds idx shape -> length idx = length shape.
+Proof.
+  revert shape; induction idx as [|i idx IH]; intros [|s ss] H; simpl in *; try tauto.
+  destruct H as [_ H]. now rewrite (IH _ H).
+Qed.
+
+Lemma ravel_lt shape : forall idx, inbounds idx shape -> ravel shape idx < prod shape.
+Proof.
+  induction shape as [|s ss IH]; intros [|i idx] H; simpl in *; try tauto; try lia.
+  destruct H as [Hi H]. specialize (IH _ H). nia.
+Qed.
+
+Lemma unravel_ravel shape : forall idx, inbounds idx shape -> unravel shape (ravel shape idx) = idx.
+Proof.
+  induction shape as [|s ss IH]; intros [|i idx] H; simpl in *; try tauto.
+  destruct H as [Hi H]. pose proof (ravel_lt ss idx H) as Hlt.
+  f_equal.
+  - rewrite Nat.div_add_l by lia. rewrite Nat.div_small by exact Hlt. lia.
+  - rewrite Nat.add_comm, Nat.mod_add by lia. rewrite Nat.mod_small by exact Hlt. apply IH; exact H.
+Qed.
+
+Lemma ravel_app s1 : forall s2 i1 i2, length i1 = length s1 ->
+  ravel (s1 ++ s2) (i1 ++ i2) = ravel s1 i1 * prod s2 + ravel s2 i2.
+Proof.
+  induction s1 as [|s s1 IH]; intros s2 [|i i1] i2 H; simpl in *; try lia.
+  rewrite IH by lia. rewrite prod_app. lia.
+Qed.
+
+(** row-major offset in the slowest-first shape = little-endian value of the fastest-first digits *)
+Lemma ravel_rev rs : forall ds, length ds = length rs -> ravel (rev rs) (rev ds) = undigits rs ds.
+Proof.
+  induction rs as [|r rs IH]; intros [|d ds] H; simpl in *; try lia.
+  rewrite ravel_app by (rewrite !rev_length; lia). rewrite IH by lia. simpl. lia.
+Qed.
+
+Lemma inbounds_rev ds rs : inb ds rs -> inbounds (rev ds) (rev rs).
+Proof.
+  revert rs; induction ds as [|d ds IH]; intros [|r rs] H; simpl in *; try tauto.
+  destruct H as [Hd H]. specialize (IH _ H).
+  clear H. revert IH. generalize (rev ds) (rev rs). intros a b. revert b.
+  induction a as [|x a IHa]; intros [|y b] Hab; simpl in *; try tauto.
+  destruct Hab as [Hx Hab]. split; [exact Hx| apply IHa; exact Hab].
+Qed.
+
+Lemma inbounds_app a1 s1 a2 s2 : inbounds a1 s1 -> inbounds a2 s2 -> inbounds (a1 ++ a2) (s1 ++ s2).
+Proof.
+  revert s1; induction a1 as [|x a1 IH]; intros [|y s1] H1 H2; simpl in *; try tauto.
+  destruct H1 as [Hx H1]. split; [exact Hx| apply IH; assumption].
+Qed.
+
+Lemma nth_map_seq {A} (f : nat -> A) n i d : i < n -> nth i (map f (seq 0 n)) d = f i.
+Proof.
+  intros H. rewrite (nth_indep _ d (f 0)) by (rewrite map_length, seq_length; exact H).
+  rewrite (map_nth f (seq 0 n) 0 i), seq_nth by exact H. reflexivity.
+Qed.
+
+(** reading the transposed array at j = reading the source where axis axes[k] carries j[k] *)
+Lemma nd_transpose_get {A} (d : A) (a : nd A) axes j :
+  inbounds j (map (fun ax => nth ax (nd_shape a) 1) axes) ->
+  nd_get d (nd_transpose d a axes) j = nd_get d a (scatter axes j).
+Proof.
+  intros Hj. unfold nd_transpose, nd_get at 1. cbn [nd_shape nd_data].
+  set (shape' := map (fun ax => nth ax (nd_shape a) 1) axes) in *.
+  rewrite nth_map_seq by (apply ravel_lt; exact Hj).
+  now rewrite unravel_ravel by exact Hj.
+Qed.
